@@ -13,6 +13,10 @@
      dih  i0 i1 i2 i3 PER SYS TR VR           -> a,b,c,bb,t | N
      puck IDX PER SYS TR VR                   -> z0,..,z5;nn | N
      prev KIND i dim VELDEP REVV FRAMES       -> frames | N    (Path.reverse; KIND = vel | pos)
+     via MASK CONF BOX0 <one of dist/dvel/pos/vel/dih/puck with TR = id>
+         calculate_order_args: SYS holds the overrides, MASK (three characters 0/1) says which
+         of xyz / vel / box are handed in (the others are None), CONF is the system the
+         engine reads from the configuration file, BOX0 what system.box held before the call
    VR is the vel_rev flag of EngineBase.calculate_order. *)
 
 let v3_of_string s =
@@ -40,10 +44,23 @@ let transform tr s =
      | _ -> failwith "bad matrix")
   | _ -> failwith ("bad transform " ^ tr)
 
-(* calculate_order(calc, vel_rev, xyz, vel, box) on the transformed system *)
+(* set by the "via" request for the duration of the wrapped request *)
+let route : (string * string * string) option ref = ref None
+
+(* calculate_order(calc, vel_rev, xyz, vel, box) on the transformed system; with a route:
+   calculate_order_args with the overrides selected by the mask *)
 let co calc s tr vr =
-  let s' = transform tr (sys_of_string s) in
-  calculate_order calc (bool_of_string_ vr) s'.spos s'.svel s'.sbox
+  match !route with
+  | None ->
+    let s' = transform tr (sys_of_string s) in
+    calculate_order calc (bool_of_string_ vr) s'.spos s'.svel s'.sbox
+  | Some (mask, conf, box0) ->
+    if tr <> "id" || String.length mask <> 3 then failwith "bad via request" else
+    let a = sys_of_string s in
+    let given i = mask.[i] = '1' in
+    calculate_order_args calc (bool_of_string_ vr) (sys_of_string conf) (box_of_string box0)
+      (if given 0 then Some a.spos else None) (if given 1 then Some a.svel else None)
+      (if given 2 then a.sbox else None)
 
 let n = nat_of_string
 let b = bool_of_string_
@@ -57,8 +74,12 @@ let frame_of_string s =
   | _ -> failwith ("bad frame " ^ s)
 let string_of_frame f = zs f.pf_order ^ "/" ^ string_of_bool_ f.pf_rev
 
-let handle toks =
+let rec handle toks =
   match toks with
+  | "via" :: mask :: conf :: box0 :: rest ->
+    route := Some (mask, conf, box0);
+    let r = (try handle rest with e -> route := None; raise e) in
+    route := None; r
   | ["pbc"; d; box] -> opt (string_of_list zs) (pbc_loop (zlist_of_string d) (zlist_of_string box))
   | ["pbc1"; d; l] ->
     let d = z_of_string d and l = z_of_string l in
